@@ -892,6 +892,7 @@ impl<'a> Gen<'a> {
             log_yield_ppm: 0,
             sentinel: vec![],
             keep_log: false,
+            heap_perturb: 0,
         }
     }
 
@@ -927,9 +928,57 @@ impl<'a> Gen<'a> {
     /// Stratum B: call histories. Callers run one after another (each on a
     /// fresh OS thread); faults: failing and panicking predecessors, injected
     /// panics, debug sessions, env changes between calls. Sentinel afterwards.
+    /// A special history shape: one source compiled for many targets (and option
+    /// combinations) one after another in one process — whatever is remembered per process
+    /// but keyed too coarsely (by handler type, by identifier text, by source only) shows.
+    fn plan_b_matrix(&self, s: u64, r: &mut Rng) -> Plan {
+        let src = match r.below(4) {
+            0 => r.pick(DIALECT_SENSITIVE).to_string(),
+            1 => tpl_program(r),
+            _ => gen_program(r, self.corpus),
+        };
+        let mut targets: Vec<&str> = DIALECTS.to_vec();
+        r.shuffle(&mut targets);
+        let k = r.range(4, targets.len());
+        let staged = r.below(4) == 0;
+        let calls: Vec<Call> = targets[..k]
+            .iter()
+            .map(|t| {
+                let opts = Opts {
+                    target: t.to_string(),
+                    format: r.below(5) == 0,
+                    sig: r.below(6) == 0,
+                    ansi: false,
+                };
+                Call::plain(if staged {
+                    Op::Staged { src: src.clone(), opts }
+                } else {
+                    Op::Compile { src: src.clone(), opts }
+                })
+            })
+            .collect();
+        Plan {
+            stratum: "B".into(),
+            exec_seed: s,
+            shuttle: false,
+            engine: String::new(),
+            hash_base: if r.below(2) == 0 { 0 } else { 1 + (r.next_u64() >> 16) },
+            env_before: None,
+            threads: vec![calls],
+            sched: Sched::default(),
+            log_yield_ppm: 0,
+            sentinel: self.sentinel(r),
+            keep_log: false,
+            heap_perturb: 0,
+        }
+    }
+
     pub fn plan_b(&self, i: u64, panickers: &[String]) -> Plan {
         let s = mix3(self.verif_seed, 0xB, i);
         let mut r = Rng::new(s);
+        if r.below(10) == 0 {
+            return self.plan_b_matrix(s, &mut r);
+        }
         let nthreads = *r.pick(&[1usize, 1, 2, 3]);
         let fault_panic_inj = r.below(2) == 0;
         let fault_panic_real = r.below(2) == 0 && !panickers.is_empty();
@@ -990,6 +1039,7 @@ impl<'a> Gen<'a> {
             }));
         }
         sentinel.extend(self.sentinel(&mut r));
+        let heap_perturb = *r.pick(&[0u32, 0, 0, 17, 300, 5000]);
         Plan {
             stratum: "B".into(),
             exec_seed: s,
@@ -1002,6 +1052,7 @@ impl<'a> Gen<'a> {
             log_yield_ppm: 0,
             sentinel,
             keep_log: false,
+            heap_perturb,
         }
     }
 
@@ -1078,6 +1129,7 @@ impl<'a> Gen<'a> {
             log_yield_ppm: *r.pick(&[0u32, 50_000, 500_000, 1_000_000]),
             sentinel,
             keep_log: false,
+            heap_perturb: *r.pick(&[0u32, 0, 0, 17, 300, 5000]),
         }
     }
 }
